@@ -5,7 +5,7 @@ from cxx2c import ExtractError, strip_comments
 
 HERE = os.path.dirname(os.path.abspath(__file__))
 CBMC_CHECKS = ['--bounds-check', '--pointer-check', '--pointer-overflow-check', '--div-by-zero-check',
-               '--signed-overflow-check', '--conversion-check', '--undefined-shift-check', '--pointer-primitive-check']
+               '--signed-overflow-check', '--conversion-check', '--undefined-shift-check', '--pointer-primitive-check', '--object-bits', '12']
 MEM_KB = 12 * 1024 * 1024
 
 class Undecided(Exception):
@@ -77,6 +77,9 @@ def clause_labels(pre_text, cname):
             body = pre_text[mm.end():k]
             lm = re.match(r'\s*/\*\s*([\w\-\.: ]+?)\s*\*/', body)
             lab = lm.group(1) if lm else None
+            if lab is None:
+                lm = re.search(r'"(COVER-[\w\-]+)"', body)
+                lab = lm.group(1) if lm else None
             if kind == 'ensures': ens.append(lab)
             elif kind == 'requires': req.append(lab)
             j = k + 1
@@ -105,8 +108,9 @@ def run_job(job):
     """returns dict(status, results, log, wall, cmd)"""
     wd = job.workdir
     base = os.path.join(wd, job.jobname)
-    inc = ['-I', os.path.join(HERE, 'prelude'), '-I', os.path.join(HERE, 'contracts'), '-I', os.path.join(HERE, 'stubs'), '-I', os.path.join(HERE, 'lemmas')]
+    inc = ['-I', wd, '-I', os.path.join(HERE, 'prelude'), '-I', os.path.join(HERE, 'contracts'), '-I', os.path.join(HERE, 'stubs'), '-I', os.path.join(HERE, 'lemmas')]
     defs = ['-D' + d for d in job.defines] + ['-DNIXC_CBMC']
+    defs += ['-DNIX_CANARY_%s=__CPROVER_ensures(0&&"COVER-canary")' % f for f in job.enforce]
     t0 = time.time()
     rc, out, _ = sh(['goto-cc', '--function', job.entry] + inc + defs + [job.cfile, '-o', base + '.a.gb'], 120)
     if rc != 0:
